@@ -50,6 +50,10 @@ func lat(bound int64, outsideIsEarlier bool, k int, far int64) int64 {
 
 func runC02(c *Ctx) {
 	theCtx = c
+	// zone-less timestamps are UTC whatever the process's local zone is
+	oldLocal := time.Local
+	time.Local = time.FixedZone("harness-local", 5*3600+1800)
+	defer func() { time.Local = oldLocal }()
 	g := c.Group("c02", spImports, caseType, "check_c02")
 	g.Shard = 100
 	now0 := baseNow
@@ -263,6 +267,45 @@ func c02Lexical(c *Ctx, g *Group) {
 	}
 	add(sp(""), "empty-attribute")
 	add(nil, "absent-attribute")
+	// every instant absent / empty / year one / zone-less around its bound: an absent or empty
+	// attribute is the zero instant (year 1), which is "expired" for an upper bound
+	field := func(which int, v *string, class string) {
+		n++
+		rs, as := validSpecs(cfg, now, fmt.Sprintf("fld%d", n))
+		switch which {
+		case 0:
+			rs.Issue = v
+		case 1:
+			as.NB = v
+		case 2:
+			as.NOA = v
+		case 3:
+			as.Confs[0].NOA = v
+		case 4:
+			as.Confs = append(as.Confs, as.Confs[0])
+			as.Confs[1].NOA = v
+		}
+		r := buildResponse(rs, buildAssertion(as))
+		SignInto(r, 0)
+		txt := "absent"
+		if v != nil {
+			txt = *v
+		}
+		c.Count("class/" + class)
+		addRun(c, g, &Run{Cfg: cfg, IDs: []string{"req-1"}, Now: now, Cur: cfg.AcsURL, Doc: r}, map[string]string{"class": class, "field": fmt.Sprint(which), "text": txt}, false)
+	}
+	bounds := []int64{now - cfg.MaxIssueDelay, now + cfg.MaxClockSkew, now - cfg.MaxClockSkew, now - cfg.MaxClockSkew, now - cfg.MaxClockSkew}
+	for which := 0; which < 5; which++ {
+		field(which, nil, "field-absent")
+		field(which, sp(""), "field-empty")
+		field(which, sp("0001-01-01T00:00:00Z"), "field-year-one")
+		field(which, sp("9999-12-31T23:59:59Z"), "field-year-9999")
+		for _, d := range []int64{-ms, ms, -2 * 3600 * 1000 * ms, 2 * 3600 * 1000 * ms} {
+			tt := time.Unix(0, bounds[which]+d).UTC()
+			field(which, sp(tt.Format("2006-01-02T15:04:05.000")), "field-zoneless")
+			field(which, sp(tt.In(time.FixedZone("", -7*3600)).Format("2006-01-02T15:04:05.000Z07:00")), "field-zoned")
+		}
+	}
 	for _, bad := range []string{"2024-05-17", "2024-05-17T10:30:00+0100", "2024-05-17 10:30:00Z", "yesterday", "2024-13-01T00:00:00Z"} {
 		add(sp(bad), "malformed")
 	}
